@@ -436,7 +436,9 @@ func gen(a Args, out *Out) {
 		switch kind {
 		case "literal":
 			g.alpha, g.talph = lit, all
-			if rng.Chance(1, 8) { // what invalid UTF-8 decodes to, and a rune outside the BMP
+			if rng.Chance(1, 8) { // runes that coincide when truncated to 8 or 16 bits
+				g.alpha, g.talph = []rune{'a', 0x161, 0x10061, 0xF600, 0x1F600}, []rune{'a', 0x161, 0x10061, 0xF600, 0x1F600, 'b'}
+			} else if rng.Chance(1, 8) { // what invalid UTF-8 decodes to, and a rune outside the BMP
 				g.alpha, g.talph = []rune{'a', 0xFFFD, 0x1F600}, []rune{'a', 'b', star, 0xFFFD, 0x1F600}
 			}
 			if rng.Chance(1, 3) {
